@@ -101,6 +101,15 @@ pub fn write_float_scientific<const FORMAT: u128>(
     assert!(format.is_valid());
     let decimal_point = options.decimal_point();
 
+    // Rounding can leave only zeros after the first digit: the mantissa is
+    // then integral, and trimming floats must treat it as such.
+    let digit_count =
+        if options.trim_floats() && digits[1..digit_count].iter().all(|&c| c == b'0') {
+            1
+        } else {
+            digit_count
+        };
+
     // Determine the exact number of digits to write.
     let exact_count = shared::min_exact_digits(digit_count, options);
 
@@ -204,6 +213,14 @@ pub fn write_float_positive_exponent<const FORMAT: u128>(
 
     // Now need to write our significant digits.
     let leading_digits = sci_exp as usize + 1;
+    // Rounding can leave only zeros after the leading digits: the value is
+    // then integral, and trimming floats must treat it as such.
+    if options.trim_floats()
+        && digit_count > leading_digits
+        && digits[leading_digits..digit_count].iter().all(|&c| c == b'0')
+    {
+        digit_count = leading_digits;
+    }
     let mut cursor: usize;
     let mut trimmed = false;
     if leading_digits >= digit_count {
